@@ -33,6 +33,8 @@ def gen_data(rng, nmax=60, dmax=6, nmin=2, dtype=None, geom=None):
     """Data set of distinct points.  Returns (X, info)."""
     n = int(rng.integers(nmin, nmax + 1))
     d = int(rng.integers(1, dmax + 1))
+    if rng.random() < 0.05:
+        d = int(rng.integers(20, 60))        # occasionally many features
     if dtype is None:
         dtype = DTYPES[int(rng.integers(0, len(DTYPES)))]
     if geom is None:
@@ -54,14 +56,27 @@ def gen_data(rng, nmax=60, dmax=6, nmin=2, dtype=None, geom=None):
         X = rng.integers(0, side, size=(n, d)).astype(float)
     if isint:
         X = np.round(X * (1 if geom == 'lattice' else 5))
+    elif rng.random() < 0.2:
+        X = X * float(10.0 ** int(rng.integers(-6, 7)))   # tiny / huge units
     X = X.astype(dtype)
     # distinct points
     _, first = np.unique(X, axis=0, return_index=True)
     X = X[np.sort(first)]
     if len(X) < nmin:
         X = (np.arange(nmin * d).reshape(nmin, d) * 3).astype(dtype)
-    return np.ascontiguousarray(X), {'geom': geom, 'dtype': np.dtype(dtype).name,
-                                     'n': len(X), 'd': X.shape[1]}
+    X = np.ascontiguousarray(X)
+    # memory layout: the kernels take strided input, the algorithms index
+    # rows; neither may depend on contiguity
+    lay = 'C'
+    r = rng.random()
+    if r < 0.15:
+        X, lay = np.asfortranarray(X), 'F'
+    elif r < 0.3:
+        big = np.zeros((len(X) * 2, X.shape[1] * 2 + 1), dtype=X.dtype)
+        big[1::2, ::2][:, :X.shape[1]] = X
+        X, lay = big[1::2, ::2][:, :d], 'strided'
+    return X, {'geom': geom, 'dtype': np.dtype(dtype).name, 'n': len(X),
+               'd': X.shape[1], 'layout': lay}
 
 
 def tol_for(X):
